@@ -256,6 +256,95 @@ def run_config(doc, mi, si, di, facet, lf=None, twin=False):
     return 'ok'
 
 
+def value_targets(m):
+    """Value-level properties of m that stand alone (the dependent groups are decided by C09's cost_* / payee_* cells)."""
+    from harness import c09_values as V
+    out = []
+    for name, d in V.value_props(type(m)):
+        if d is None or len(V.group_of(type(m), name)) > 1:
+            continue
+        t = V.inner_type(m, name, d)
+        cands = [c for c in V.CANDIDATES.get(t, []) if c is not V.STR_SYM]
+        if V.optional(d):
+            cands = [None] + cands
+        out.append((name, cands))
+    return out
+
+
+def run_value(doc, mi, pi, vi, facet, lf=None, twin=False):
+    """One value-level assignment m.<prop> = v on model mi of the document, concrete, untraced."""
+    if lf:
+        set_load_factor(lf)
+    f = docenv.PARSER.parse(DOCS[doc], M.File)
+    m = tree_models(f)[mi]
+    name, cands = value_targets(m)[pi]
+    v = cands[vi]
+    what = '%s[%d] %s.%s = %r' % (doc, mi, type(m).__name__, name, v)
+    raw_name = 'raw_' + name
+    cur = getattr(m, raw_name, None)
+    if cur is None and v is None:
+        return 'none-to-none'
+    store = f.token_store
+    before = Snapshot(store)
+    pf, pl = m.first_token, m.last_token
+    fld = '_' + name if '_' + name in docenv.field_names(type(m)) else None
+    holder = [n for n, c in docenv.children(m) if fld is None and isinstance(c, M.RawTreeModel) and type(c).__name__ in ('UnitCost', 'TotalCost')]
+    sibs = [(n, c, text_of(c)) for n, c in docenv.children(m) if n != fld and c is not cur and n not in holder]
+    if holder:
+        sibs += [('component %d' % k, c, text_of(c)) for k, c in enumerate(m.__dict__[holder[0]].raw_components) if c is not cur]
+    old_tokens = list(cur.tokens) if cur is not None else []
+    setattr(m, name, v)
+    if twin:
+        raise Fail('twin reached the assertion point')
+    got = getattr(m, name)
+    check(got == v, what, 'reads back', R(got))
+    if facet == 'tree':
+        docenv.tree_invariant(f, what=what)
+        return 'ok'
+    if facet == 'reparse':
+        if name != 'indent':      # C06 excludes indent overrides
+            docenv.reparse_equivalent(f, what=what)
+        return 'ok'
+    new = getattr(m, raw_name, None)
+    new_tokens = list(new.tokens) if new is not None else []
+    after = Snapshot(store)
+    docenv.check_window(before, after, pf, pl, old_tokens, new_tokens, what=what, inplace_ok=True)
+    for n, c, t in sibs:
+        check(n.startswith('component ') or m.__dict__.get(n) is c, what, 'sibling slot', n, 'now holds another node')
+        check(text_of(c) == t, what, 'sibling', n, 'changed its text', R(t), '->', R(text_of(c)))
+    a, b = before.index[id(pf)], before.index[id(pl)]
+    check(all(x is y for x, y in zip(before.tokens[:a], after.tokens[:a])) and before.texts[:a] == after.texts[:a], what, 'text before the parent changed')
+    nb, na = len(before.tokens), len(after.tokens)
+    check(all(before.tokens[nb - 1 - k] is after.tokens[na - 1 - k] and before.texts[nb - 1 - k] == after.texts[na - 1 - k] for k in range(nb - b - 1)), what, 'text after the parent changed')
+    return 'ok'
+
+
+def value_configs(doc):
+    f = docenv.PARSER.parse(DOCS[doc], M.File)
+    out = []
+    for mi, m in enumerate(tree_models(f)):
+        for pi, (name, cands) in enumerate(value_targets(m)):
+            for vi, v in enumerate(cands):
+                if v is None and getattr(m, 'raw_' + name, None) is None:
+                    continue
+                out.append((mi, pi, vi))
+    return out
+
+
+def make_value(doc, facet, lf=None, twin=False, part=(0, 1)):
+    cfgs = VALUE_CONFIGS[doc][part[0]::part[1]]
+    n = len(cfgs)
+
+    def cell(ci: int) -> None:
+        assert 0 <= ci < n
+        ci = pick(ci, 0, n - 1)
+        with NoTracing():
+            mi, pi, vi = cfgs[ci]
+            run_value(doc, mi, pi, vi, facet, lf=lf, twin=twin)
+
+    return 'slotval_%s_%s_p%d%s%s' % (doc, facet, part[0], '_lf%d' % lf if lf else '', '_twin' if twin else ''), cell
+
+
 def configs(doc, facet):
     """Every (model ordinal, slot ordinal, donor choice) that denotes an assignment, found by inspecting the parsed scaffold."""
     f = docenv.PARSER.parse(DOCS[doc], M.File)
@@ -271,6 +360,7 @@ def configs(doc, facet):
 
 with NoTracing():
     CONFIGS = {(doc, facet): configs(doc, facet) for doc in DOCS for facet in ('window', 'refuse')}
+    VALUE_CONFIGS = {doc: value_configs(doc) for doc in DOCS}
 
 
 def make_slot(doc, facet, lf=None, twin=False, part=None):
@@ -306,6 +396,16 @@ for _doc in DOCS:
     for _facet, _prop in (('window', 'C03'), ('tree', 'C05'), ('reparse', 'C06'), ('refuse', 'C19')):
         _reg(make_slot(_doc, _facet), {_prop: Q}, 900, 'slot', _B % (_doc, len(CONFIGS[(_doc, 'refuse' if _facet == 'refuse' else 'window')]), '; facet ' + _facet), cost=200)
         _reg(make_slot(_doc, _facet, lf=2), {_prop: T}, 1800, 'slot', _B % (_doc, len(CONFIGS[(_doc, 'refuse' if _facet == 'refuse' else 'window')]), '; facet %s; token store at load factor 2' % _facet), cost=200)
+_VB = ('scaffold document %s: model ordinal (every tree model) x value-level property (every stand-alone value property by introspection) x value '
+       '(None for optional ones, the in-domain alternatives of harness/c09_values.py); %d of %d assignments; facet %s%s')
+NPART = 3
+for _doc in DOCS:
+    for _facet, _prop in (('window', 'C03'), ('tree', 'C05'), ('reparse', 'C06')):
+        for _p in range(NPART):
+            _n = len(VALUE_CONFIGS[_doc][_p::NPART])
+            _reg(make_value(_doc, _facet, part=(_p, NPART)), {_prop: Q}, 900, 'slot-value', _VB % (_doc, _n, len(VALUE_CONFIGS[_doc]), _facet, ''), cost=200)
+            _reg(make_value(_doc, _facet, part=(_p, NPART), lf=2), {_prop: T}, 1800, 'slot-value', _VB % (_doc, _n, len(VALUE_CONFIGS[_doc]), _facet, '; token store at load factor 2'), cost=200)
+_reg(make_value('A', 'window', twin=True), {'C03': Q}, 300, 'slot-value', 'vacuity twin', twin=True, cost=5)
 for _facet, _prop in (('window', 'C03'), ('tree', 'C05'), ('reparse', 'C06'), ('refuse', 'C19')):
     _reg(make_slot('A', _facet, twin=True), {_prop: Q}, 300, 'slot', 'vacuity twin', twin=True, cost=5)
 
@@ -339,3 +439,15 @@ if __name__ == '__main__':      # native calibration: every configuration of eve
                     stat['ERR'] += 1
                     print('ERR', doc, facet, mi, si, di, repr(e)[:300])
             print(doc, facet, dict(stat))
+        for facet in ('window', 'tree', 'reparse'):
+            stat = collections.Counter()
+            for (mi, pi, vi) in VALUE_CONFIGS[doc]:
+                try:
+                    stat[run_value(doc, mi, pi, vi, facet)] += 1
+                except Fail as e:
+                    stat['FAIL'] += 1
+                    print('FAIL', doc, 'value', facet, mi, pi, vi, str(e)[:600])
+                except Exception as e:
+                    stat['ERR'] += 1
+                    print('ERR', doc, 'value', facet, mi, pi, vi, repr(e)[:300])
+            print(doc, 'value', facet, dict(stat))
